@@ -119,6 +119,23 @@ class SliceT(T):
     pass
 
 
+class FunResT(T):
+    """Result of a callee that is treated as an opaque function of one vector argument: `name(arg)`.
+    Two such results are equal when the arguments are equal element by element (congruence); nothing else
+    is known about them."""
+
+    def __init__(self, name, arg):
+        self.name, self.arg = name, arg
+
+
+OPAQUE_FUNS = set()      # names usable in spec expressions as opaque vector functions, e.g. BH(v)
+
+
+def opaque_fun(name):
+    OPAQUE_FUNS.add(name)
+    return name
+
+
 class FuncT(T):
     """callable parameter; `spec` names an uninterpreted function Real*->Real etc."""
 
